@@ -16,6 +16,7 @@ from concurrent.futures import ThreadPoolExecutor
 
 from .. import core
 from . import pybind_common
+from ..gen import scopes
 
 COND = '''import sys
 if sys.argv:
@@ -142,6 +143,10 @@ def run(tier, replay=None):
                          'pos': [ln, col + 1 if len(nm) > 1 else col + len(nm)], 'name': nm}
                     requests.append(q)
                     sites[q['id']] = {'%d,%s' % (k[0], k[1]): v for k, v in bpos.items()}
+            for mi, src in enumerate(scopes.gen_modules(seed * 11 + 4, 600 if thorough else 60)):
+                fname = '/nonexistent-verif-root/s%d.py' % mi
+                requests.append({'id': 's%d-lint' % mi, 'kind': 'lint', 'source': src, 'filename': fname, 'pos': [0, 0]})
+                requests.append({'id': 's%d-alts' % mi, 'kind': 'alts', 'source': src, 'filename': fname, 'pos': [0, 0]})
             # 2. a project with conditionally defined names reached through imports
             projdir = os.path.join(wd, 'proj')
             os.makedirs(projdir)
